@@ -30,9 +30,9 @@ set_option maxHeartbeats 4000000 in
 /-- `nextFrame`: the extracted 13-path tree as Mathlib matrices — `Mi · T(−pi) · R · T(pj)` with `R = axisAngleM44 (ti^ × tj^) (acos (ti^·tj^))`, the matrix `setAxisAngle` writes (`M44_setAxisAngle_eq`), when both tangents
 are non-zero, not parallel and the angle is non-zero, else `Mi · T(pj − pi)` (`nextFrameStep`; `acos` is a parameter: the code calls
 `acosf` for every element type, see the check's notes) -/
-theorem nextFrame_eq (tmin : α) (sqrt sin cos acos : α → α) (Mi : M44 α) (pi pj ti tj : V3 α) :
-    (Gen.Frame.nextFrame tmin sqrt sin cos acos Mi pi pj ti tj).1.toMat
-      = Mi.toMat * nextFrameStep (Gen.V3.length tmin sqrt) sin cos acos pi pj ti tj := by
+theorem nextFrame_eq (tmin tmax : α) (sqrt sin cos acos : α → α) (Mi : M44 α) (pi pj ti tj : V3 α) :
+    (Gen.Frame.nextFrame tmin tmax sqrt sin cos acos Mi pi pj ti tj).1.toMat
+      = Mi.toMat * nextFrameStep (Gen.V3.length tmin tmax sqrt) sin cos acos pi pj ti tj := by
   obtain ⟨ix, iy, iz⟩ := pi
   obtain ⟨jx, jy, jz⟩ := pj
   obtain ⟨ax, ay, az⟩ := ti
@@ -45,29 +45,29 @@ theorem nextFrame_eq (tmin : α) (sqrt sin cos acos : α → α) (Mi : M44 α) (
         simp [axisAngleM44, frameM44, aaRow0, aaRow1, aaRow2, nrm, transMat, M44.toMat, Matrix.mul_apply, Fin.sum_univ_four, vneg, vsub, *] <;> ring1)
 /-- EVERY path (zero / parallel tangents included): an orthonormal right-handed previous frame with origin `pi` becomes an orthonormal
 right-handed frame with origin `pj`, its axes turned by the rotation `nextFrameRot` -/
-theorem nextFrame_frame (tmin : α) (sqrt sin cos acos : α → α) (hlen : LenSpec (Gen.V3.length tmin sqrt))
+theorem nextFrame_frame (tmin tmax : α) (sqrt sin cos acos : α → α) (hlen : LenSpec (Gen.V3.length tmin tmax sqrt))
     (hsc : ∀ x, sin x ^ 2 + cos x ^ 2 = 1) (Mi : M44 α) (pi pj ti tj : V3 α) (hMi : IsFrame Mi) (hpi : row3 Mi = pi) :
-    IsFrame (Gen.Frame.nextFrame tmin sqrt sin cos acos Mi pi pj ti tj).1 ∧
-      row3 (Gen.Frame.nextFrame tmin sqrt sin cos acos Mi pi pj ti tj).1 = pj ∧
-      rot3 (Gen.Frame.nextFrame tmin sqrt sin cos acos Mi pi pj ti tj).1 = rot3 Mi * nextFrameRot (Gen.V3.length tmin sqrt) sin cos acos ti tj ∧
-      IsRot (nextFrameRot (Gen.V3.length tmin sqrt) sin cos acos ti tj) :=
-  nextFrameStep_isFrame sin cos acos hlen hsc Mi _ pi pj ti tj hMi hpi (nextFrame_eq tmin sqrt sin cos acos Mi pi pj ti tj)
+    IsFrame (Gen.Frame.nextFrame tmin tmax sqrt sin cos acos Mi pi pj ti tj).1 ∧
+      row3 (Gen.Frame.nextFrame tmin tmax sqrt sin cos acos Mi pi pj ti tj).1 = pj ∧
+      rot3 (Gen.Frame.nextFrame tmin tmax sqrt sin cos acos Mi pi pj ti tj).1 = rot3 Mi * nextFrameRot (Gen.V3.length tmin tmax sqrt) sin cos acos ti tj ∧
+      IsRot (nextFrameRot (Gen.V3.length tmin tmax sqrt) sin cos acos ti tj) :=
+  nextFrameStep_isFrame sin cos acos hlen hsc Mi _ pi pj ti tj hMi hpi (nextFrame_eq tmin tmax sqrt sin cos acos Mi pi pj ti tj)
 /-- for non-zero, non-parallel tangents that rotation takes the direction of `ti` to the direction of `tj` (so a frame whose x-row is the
 old tangent gets the new tangent as x-row). Assumed of `acos`: `cos (acos x) = x ∧ 0 ≤ sin (acos x)` on `[−1, 1]`, and `cos 0 = 1` -/
-theorem nextFrame_tangent (tmin : α) (sqrt sin cos acos : α → α) (hlen : LenSpec (Gen.V3.length tmin sqrt))
+theorem nextFrame_tangent (tmin tmax : α) (sqrt sin cos acos : α → α) (hlen : LenSpec (Gen.V3.length tmin tmax sqrt))
     (hac : AcosSpec sin cos acos) (ti tj : V3 α) (hi : ti ≠ ⟨0, 0, 0⟩) (hj : tj ≠ ⟨0, 0, 0⟩) (hij : cross ti tj ≠ ⟨0, 0, 0⟩) :
-    (nrm (Gen.V3.length tmin sqrt) ti).toVec ᵥ* nextFrameRot (Gen.V3.length tmin sqrt) sin cos acos ti tj
-      = (nrm (Gen.V3.length tmin sqrt) tj).toVec :=
+    (nrm (Gen.V3.length tmin tmax sqrt) ti).toVec ᵥ* nextFrameRot (Gen.V3.length tmin tmax sqrt) sin cos acos ti tj
+      = (nrm (Gen.V3.length tmin tmax sqrt) tj).toVec :=
   nextFrameRot_align sin cos acos hlen hac ti tj hi hj hij
 /-- real `arccos`, `sin`, `cos` satisfy the assumption -/
 example : AcosSpec Real.sin Real.cos Real.arccos :=
   ⟨Real.sin_sq_add_cos_sq, Real.cos_zero, fun x h1 h2 => ⟨Real.cos_arccos h1 h2, Real.sin_arccos x ▸ Real.sqrt_nonneg _⟩⟩
 /-- the tangents are normalised in place (non-const reference arguments) when both are non-zero, else left alone -/
-theorem nextFrame_tangents_out (tmin : α) (sqrt sin cos acos : α → α) (Mi : M44 α) (pi pj ti tj : V3 α) :
-    (Gen.Frame.nextFrame tmin sqrt sin cos acos Mi pi pj ti tj).2 =
-      if ¬ Gen.V3.length tmin sqrt ti = 0 ∧ ¬ Gen.V3.length tmin sqrt tj = 0 then
-        (⟨ti.x / Gen.V3.length tmin sqrt ti, ti.y / Gen.V3.length tmin sqrt ti, ti.z / Gen.V3.length tmin sqrt ti⟩,
-         ⟨tj.x / Gen.V3.length tmin sqrt tj, tj.y / Gen.V3.length tmin sqrt tj, tj.z / Gen.V3.length tmin sqrt tj⟩)
+theorem nextFrame_tangents_out (tmin tmax : α) (sqrt sin cos acos : α → α) (Mi : M44 α) (pi pj ti tj : V3 α) :
+    (Gen.Frame.nextFrame tmin tmax sqrt sin cos acos Mi pi pj ti tj).2 =
+      if ¬ Gen.V3.length tmin tmax sqrt ti = 0 ∧ ¬ Gen.V3.length tmin tmax sqrt tj = 0 then
+        (⟨ti.x / Gen.V3.length tmin tmax sqrt ti, ti.y / Gen.V3.length tmin tmax sqrt ti, ti.z / Gen.V3.length tmin tmax sqrt ti⟩,
+         ⟨tj.x / Gen.V3.length tmin tmax sqrt tj, tj.y / Gen.V3.length tmin tmax sqrt tj, tj.z / Gen.V3.length tmin tmax sqrt tj⟩)
       else (ti, tj) := by
   obtain ⟨ax, ay, az⟩ := ti
   obtain ⟨bx, by', bz⟩ := tj
